@@ -181,7 +181,15 @@ class IMapUnorderedIterator(IMapIterator):
     ordered = False
 
 
-class SimPool:
+class SimPool(simmp._Guarded):
+    @property
+    def _pool(self):
+        return self.workers  # the list of worker Process objects (private, but commonly inspected)
+
+    @property
+    def _processes(self):
+        return self.n
+
     def __init__(self, processes=None, initializer=None, initargs=(), maxtasksperchild=None, context=None):
         w = simmp._w()
         self.world = w
@@ -222,6 +230,7 @@ class SimPool:
         p._started = True
         p.pool = self
         p.holds_pool_lock = lambda p=p: self.in_rlock is p or self.out_wlock is p
+        p.running_task = None
         w.spawn(p, body=lambda p=p: self._worker_main(p))
         self.workers.append(p)
 
